@@ -443,3 +443,11 @@ func OutputEventTypes(path string) []string {
 	}
 	return out
 }
+
+// Advance lets sec seconds pass on the run's clock (the engine adds to its symbolic clock; the
+// native replay really waits).
+func Advance(sec int) {
+	if sec > 0 {
+		time.Sleep(time.Duration(sec) * time.Second)
+	}
+}
